@@ -194,7 +194,7 @@ def accessors_and_more(rep: Report, rng: random.Random):
         if not abs(lp - ref) <= 1e-10 * (1 + abs(ref)):
             rep.violation({"family": "VmapMixture", "component": fam, "what": "value"},
                           f"VmapMixture of {fam}: log_prob({x}) = {lp}; weight-normalised logsumexp of the component densities = {ref}")
-        if not abs(lp - lp2) <= 1e-10 * (1 + abs(lp)):
+        if not (np.isfinite(lp) and abs(lp - lp2) <= 1e-10 * (1 + abs(lp))):
             rep.violation({"family": "VmapMixture", "component": fam, "what": "not invariant to rescaling the weights"},
                           f"VmapMixture of {fam}: {lp} with weights w, {lp2} with 37.5 w")
         if lp != lp:
